@@ -72,8 +72,14 @@ coordinates (every P0/P1 shape function, every Cartesian component of an RWG/SNC
 `p1_bary_represents`, `rwg_bary_table_correct`, `snc_bary_table_correct` — the restriction of every coarse
 P1/RWG/SNC function) and a rule whose monomial sums up to degree 2 are the exact moments of the reference
 triangle (C12 `tri_exact` for order ≥ 2), the quadrature sum times the integration element is the exact
-integral of the product (written with the exact moments `1/2, 1/6, 1/6, 1/12, 1/24, 1/12`). -/
-theorem mixed_mass_exact {K : Type} [Field K] [CharZero K] (rule : List (K × K × K))
+integral of the product (written with the exact moments `1/2, 1/6, 1/6, 1/12, 1/24, 1/12`).
+
+PARTIAL.  Full statement (not a theorem here): for every grid and every pair of a primal space (DP0, P1, RWG, SNC) and
+a dual / Buffa-Christiansen space (DUAL0, DUAL1, BC, RBC), the matrix returned by the sparse assembler equals
+`∫ test_r · trial_c` for all global dofs.  Missing: the sum over the sub-triangles through `local2global` and the two
+`dof_transformation` matrices (C13 `sparse_refines_spec`), exactness of the tabulated rule to rounding only (C12), and
+the BC/RBC coefficient patterns (not modelled; oracle only). -/
+theorem mixed_mass_exact_partial {K : Type} [Field K] [CharZero K] (rule : List (K × K × K))
     (hex : ∀ a b, a + b ≤ 2 → ruleMoment rule a b = ((refMoment a b : Rat) : K)) (f g : K × K × K) (A : K) :
     (rule.map fun q => aff f (q.1, q.2.1) * aff g (q.1, q.2.1) * q.2.2 * A).sum
       = A * (f.1 * g.1 / 2 + (f.1 * g.2.1 + f.2.1 * g.1) / 6 + (f.1 * g.2.2 + f.2.2 * g.1) / 6
@@ -96,7 +102,7 @@ instance over `ℚ` with a non-degenerate Jacobian, all lengths 2, evaluates to 
 example : rwgEval ((1 : Rat), 0, 0) (0, 1, 0) 1 2 1 0 (triMap (subVertex 2 0) (subVertex 2 1) (subVertex 2 2) (1 / 4, 1 / 4))
     ≠ (0, 0, 0) := by decide +kernel
 
-/-- a rule that satisfies the hypothesis of `mixed_mass_exact`: the three edge midpoints with weights 1/6. -/
+/-- a rule that satisfies the hypothesis of `mixed_mass_exact_partial`: the three edge midpoints with weights 1/6. -/
 example : ∀ a b, a + b ≤ 2 →
     ruleMoment ([(1 / 2, 0, 1 / 6), (1 / 2, 1 / 2, 1 / 6), (0, 1 / 2, 1 / 6)] : List (ℚ × ℚ × ℚ)) a b
       = ((refMoment a b : Rat) : ℚ) := by
